@@ -50,7 +50,7 @@ def run(ctx):
             lambda s: (s["shape"], s["headdigest"], s["refapi_src"], s["refapi_tgt"], s["mount"]),
             lambda s: (s["shape"], s["tag0"], bool(s["init"])), lambda s: (s["pair"], s["mode"]),
             lambda s: (s["shape"], s.get("bydigest", 0), s.get("tgtbydigest", 0))]
-    mx = cc.cover_sample(rng, mx, 14000 if th else 1800, keyf)
+    mx = cc.cover_sample(rng, mx, 14000 if th else 1600, keyf)
     # the seeded-candidate classes: a (sub)index the target already holds + referrers below it; a foreign
     # layer whose url answers
     extra = []
@@ -85,6 +85,13 @@ def run(ctx):
                                    listorder=lo, pagesize=0, refapi_src=rng.choice([0, 1])))
     extra += e.client_history("history")
     extra += e.round4("round4")
+    # (round 5) warm caches of the same client (earlier listings / HEADs); a second user of the client closing the
+    # layout target while the copy runs; the repeat copy
+    extra += e.warm_cache("warm")
+    cl = e.closers("closer")
+    extra += cl if th else cc.cover_sample(rng, cl, 170, [lambda s: (s["shape"], s["pair"], bool(s.get("closer_cb"))),
+                                                          lambda s: (s["closer_op"], (s.get("closer") or {}).get("class"))])
+    extra += cc.cover_sample(rng, e.repeats("repeat"), 10000 if th else 60, [lambda s: s["shape"]])
     res = e.run(scripts + mx + extra, "fault-free")
 
     # 3. validation against (P)
